@@ -403,6 +403,14 @@ theorem ellswift_encoding_decodes [Fact (Nat.Prime Field.p)] (hg : ∀ a : ZMod 
     Ellswift.decode (BV.Hex.natBE u 32 ++ BV.Hex.natBE t 32) = some x :=
   Ellswift.Refine.decode_encode hg u x t case hu hu0 hx hcurve h
 
+/-- `XElligatorSwift` / `EllswiftCreate`'s retry loop as a whole (any number of rejected draws):
+whatever encoding it returns for x decodes to x -/
+theorem ellswift_create_decodes [Fact (Nat.Prime Field.p)] (hg : ∀ a : ZMod Field.p, a ^ 3 + 7 ≠ 0)
+    (x : Nat) (hx : x < Field.p) (hcurve : ∃ y : Nat, y * y % Field.p = (x ^ 3 + 7) % Field.p)
+    (fuel : Nat) (rnd ell rest : List UInt8) (h : Ellswift.createLoop x fuel rnd = some (ell, rest))
+    (hnz : BV.Hex.beToNat (ell.take 32) ≠ 0) : Ellswift.decode ell = some x :=
+  Ellswift.Refine.createLoop_decodes hg x hx hcurve fuel rnd ell rest h hnz
+
 /-- the hypotheses of `xswiftec_inv_correct` are satisfiable (the field with 13 elements: c = 6,
 no root of x³ + 7), and the theorem applies to a concrete encoding there -/
 example : Ellswift.xswiftec Ellswift.Lemmas.ops13 1 2 = some 7 :=
